@@ -139,10 +139,12 @@ def main():
     print("not_applicable:", [c["property_id"] for c in na])
 
 
-ENGINE_PATH = {"SEQ": "sim/engines.py", "CONC": "sim/conc.py", "ATOM": "sim/atom.py", "CRASH": "sim/crash.py",
-               "FAULT": "sim/fault.py"}
+ENGINE_PATH = {"SEQ": "sim/engines.py", "SEQ-I": "sim/seqi.py", "CONC": "sim/conc.py", "ATOM": "sim/single.py",
+               "CRASH": "sim/single.py", "FAULT": "sim/single.py"}
 ENGINE_TEXT = {
     "SEQ": "sequential seeded histories on the real FileHashStore vs reference model, restarts, both sync modes",
+    "SEQ-I": "sequential seeded histories in which calls are interrupted (one-off/persistent I/O error, process death + "
+             "reopen); the model is re-synchronised from API observations and every later call is held to it",
     "CONC": "2-4 tasks under the seeded baton-passing scheduler (random / PCT / bounded / probe-biased), linearizability vs the model",
     "ATOM": "invariant monitor evaluated at every seam event (between any two kernel-visible steps)",
     "CRASH": "process death before every seam event of a call (directory snapshot), recovery oracle on a new instance",
